@@ -6,12 +6,14 @@
 (*                                                                          *)
 (* iv = <<req, data, sl, g>>                                                *)
 (*      req: 1 = Wishbone write of `data` to the xfer register (held until  *)
-(*      the bus acknowledges); data = command word bits                     *)
+(*      the bus acknowledges), 2 = Wishbone READ of the xfer register (held *)
+(*      likewise; `data` is then whatever the master leaves on its write    *)
+(*      data lines); data = command word bits                               *)
 (*        0..7 data, 8 ack, 9 read, 10 write, 11 start, 12 stop;            *)
 (*      sl: level the slave puts on SDA (0 = pulls low); g: with a command, *)
 (*      the slave's choice (write: 1 ack / 2 nack; read: index of the byte  *)
 (*      it returns), else 0.                                                *)
-(* o  = <<wb_ack, scl_oe, sda_oe, st_data, st_ack, st_idle>>                *)
+(* o  = <<wb_ack, scl_oe, sda_oe, st_data, st_ack, st_idle, dat_r>>         *)
 (*      scl_oe / sda_oe: the master pulls the (open-drain) line low;        *)
 (*      st_*: the fields of the xfer register as software reads them.       *)
 (*      Bus levels: SCL = 1 - scl_oe (no clock stretching), SDA = (1 -      *)
@@ -20,7 +22,10 @@
 (*    cycles), bytes (seq of bytes written), sbytes (seq of bytes a slave   *)
 (*    returns), cmds (subset of {"start", "stop", "write", "read"}),        *)
 (*    early (1: software may also write the next byte command while a byte  *)
-(*    is being written, i.e. without waiting for idle)                      *)
+(*    is being written, i.e. without waiting for idle), poll (optional flag, *)
+(*    1: software polls the xfer register - reads at any time, also while   *)
+(*    a command is in flight, with a stale command word on the write data   *)
+(*    lines; a read is not a command)                                       *)
 (*                                                                          *)
 (* Environment.  Software follows the I2C transaction grammar: START on a   *)
 (* free bus; then a written (address) byte; then bytes written or read,     *)
@@ -44,7 +49,8 @@ SeqSet(q) == { q[i] : i \in 1..Len(q) }
 
 START == 2048   STOP == 4096   WRITE == 1024   READ == 512   ACKBIT == 256
 
-(* m.wb: <<>> or <<data, g>> the Wishbone write being held                                  *)
+(* m.wb: <<>> or <<data, g>> the Wishbone access being held; m.rd = 1: it is a read         *)
+(* m.pst: the xfer register (data, ack, idle fields) as it stood in the previous cycle      *)
 (* m.bus: "free" (after reset / STOP), "start" (after a START), "low" (after a byte)        *)
 (* m.cmd: <<>> or the command in flight [k (kind), d (byte to write / returned by the slave), *)
 (*        a (ack choice of the slave / ack bit of the master), r, f (SCL rises / falls seen), *)
@@ -53,7 +59,11 @@ START == 2048   STOP == 4096   WRITE == 1024   READ == 512   ACKBIT == 256
 (* m.ev: cycles since the last SCL edge or START/STOP condition of this command (capped)    *)
 (* m.chk: <<>> or <<field, value>> status to be found in the register                        *)
 Init0 == [wb |-> <<>>, bus |-> "free", cmd |-> <<>>, pscl |-> 1, psoe |-> 0, psda |-> 1, ev |-> 0,
-          chk |-> <<>>, done |-> 2]
+          chk |-> <<>>, done |-> 2, rd |-> 0, pst |-> 0]
+
+(* what a polling master leaves on the write data lines: a stale word with every command bit set *)
+JUNK == START + STOP + WRITE + READ + 60
+IDLEBIT == 8192
 
 CmdWords(c) ==
   LET has(x) == x \in SeqSet(c.cmds) IN
@@ -69,8 +79,9 @@ CmdWords(c) ==
 
 Inputs(c) ==
   LET SL == {0, 1} IN
-  IF m.wb # <<>> THEN { <<1, m.wb[1], b, m.wb[2]>> : b \in SL }
+  IF m.wb # <<>> THEN { <<1 + m.rd, m.wb[1], b, m.wb[2]>> : b \in SL }
   ELSE { <<0, 0, b, 0>> : b \in SL } \cup
+       (IF Flag(c, "poll") = 1 THEN { <<2, JUNK, b, 0>> : b \in SL } ELSE {}) \cup
        (IF m.cmd = <<>> /\ m.done >= 1 THEN { <<1, w[1], b, w[2]>> : w \in CmdWords(c), b \in SL }
         ELSE IF m.cmd # <<>> /\ c.early = 1 /\ m.cmd.k = "write"          \* during a byte, without waiting for idle
              THEN { <<1, WRITE + c.bytes[1], b, 1>> : b \in SL }
@@ -89,7 +100,7 @@ SlLevel(c, o) ==
 Consistent(c, iv, o) == iv[3] = SlLevel(c, o)
 
 AllOk == [oksda |-> TRUE, okseq |-> TRUE, okdata |-> TRUE, oktime |-> TRUE, okstat |-> TRUE, okidle |-> TRUE,
-          fin |-> TRUE]
+          okread |-> TRUE, fin |-> TRUE]
 CInit(c) == m = Init0 /\ obs = AllOk
 
 Kind(w) == IF (w \div START) % 2 = 1 THEN "start" ELSE IF (w \div STOP) % 2 = 1 THEN "stop"
@@ -110,8 +121,9 @@ CStep(c, iv, o) ==
       T    == c.load + 1
       \* the command word takes effect in the cycle the Wishbone write is acknowledged
       \* (a command written while the core is busy is expected to leave the one in flight alone)
-      issue == m.wb # <<>> /\ wack = 1 /\ ~busy
-      early == m.wb # <<>> /\ wack = 1 /\ busy
+      issue == m.wb # <<>> /\ m.rd = 0 /\ wack = 1 /\ ~busy
+      early == m.wb # <<>> /\ m.rd = 0 /\ wack = 1 /\ busy
+      rdack == m.wb # <<>> /\ m.rd = 1 /\ wack = 1       \* a read of the xfer register completes
       w     == m.wb[1]
       kind  == IF Kind(w) = "start" /\ m.bus = "low" THEN "restart"
                ELSE IF (Kind(w) = "stop" /\ m.bus # "low") \/ (Kind(w) = "start" /\ m.bus = "start") THEN "nop"
@@ -156,6 +168,9 @@ CStep(c, iv, o) ==
       okidle == /\ (finish => complete)
                 /\ (~busy /\ ~issue /\ m.done >= 1 => stidle = 1)
                 /\ (~busy /\ m.done >= 2 => (~sdac /\ ~rise /\ ~fall))      \* nothing moves while idle
+      \* (g) a read returns the register as documented: data in bits 0..7, ack in bit 8, idle in bit 13,
+      \*     the fields as they stood in the cycle before the acknowledge (registered read data)
+      okread == rdack => o[7] = m.pst
       nx == IF issue THEN newx
             ELSE IF ~busy \/ finish THEN <<>>
             ELSE [x EXCEPT !.r = IF rise THEN Min(x.r + 1, 10) ELSE x.r,
@@ -164,7 +179,9 @@ CStep(c, iv, o) ==
                            !.rx = IF rise THEN (x.rx * 2 + sda) % 512 ELSE x.rx]
   IN
   /\ m' = [wb   |-> IF m.wb # <<>> THEN (IF wack = 1 THEN <<>> ELSE m.wb)
-                    ELSE IF iv[1] = 1 THEN <<iv[2], iv[4]>> ELSE <<>>,
+                    ELSE IF iv[1] >= 1 THEN <<iv[2], iv[4]>> ELSE <<>>,
+           rd   |-> IF m.wb # <<>> THEN (IF wack = 1 THEN 0 ELSE m.rd) ELSE B(iv[1] = 2),
+           pst  |-> stdata + 256 * stack + IDLEBIT * stidle,
            bus  |-> IF finish THEN (CASE x.k \in {"start", "restart"} -> "start" [] x.k = "stop" -> "free"
                                      [] x.k = "nop" -> m.bus [] OTHER -> "low")
                     ELSE m.bus,
@@ -176,7 +193,7 @@ CStep(c, iv, o) ==
                     ELSE IF busy \/ issue \/ iv[1] = 1 THEN <<>> ELSE m.chk,     \* (a new command word overwrites the fields)
            done |-> IF busy \/ issue THEN 0 ELSE Min(m.done + 1, 2)]
   /\ obs' = [oksda |-> oksda, okseq |-> okseq, okdata |-> okdata, oktime |-> oktime, okstat |-> okstat,
-             okidle |-> okidle, fin |-> (nx = <<>> /\ m.wb = <<>>)]
+             okidle |-> okidle, okread |-> okread, fin |-> (nx = <<>> /\ m.wb = <<>>)]
   /\ WitIf(finish /\ x.k = "write" /\ x.a = 0, c, 0, "byte written and acknowledged")
   /\ WitIf(finish /\ x.k = "write" /\ x.a = 1, c, 1, "byte written, not acknowledged")
   /\ WitIf(finish /\ x.k = "read" /\ x.d # 0 /\ x.d # 255, c, 2, "byte read")
@@ -185,6 +202,9 @@ CStep(c, iv, o) ==
   /\ WitIf(early, c, 5, "command written while busy")
   /\ WitIf(finish /\ x.k = "nop" /\ m.bus = "free", c, 6, "stop on a free bus")
   /\ WitIf(finish /\ x.k = "nop" /\ m.bus = "start", c, 7, "stop or start straight after a start")
+  /\ WitIf(rdack /\ busy /\ x.k \in {"write", "read"} /\ x.r >= 1 /\ x.r <= 8, c, 8, "register polled during a byte")
+  /\ WitIf(rdack /\ ~busy /\ m.done >= 1 /\ m.bus = "low", c, 9, "register polled while idle")
+  /\ WitIf(rdack /\ m.pst % 256 # 0 /\ m.pst >= IDLEBIT, c, 10, "idle status with a data byte read")
 
 SdaOnlyStartStop  == obs.oksda
 ClocksPerCommand  == obs.okseq
@@ -192,4 +212,5 @@ ByteOnSda         == obs.okdata
 SclPhaseLength    == obs.oktime
 StatusReadBack    == obs.okstat
 IdleMeansComplete == obs.okidle
+ReadReturnsStatus == obs.okread
 =============================================================================
